@@ -267,4 +267,12 @@ def rule_structure(ctx):
         ctx.res.ok("O13.4", "all %d raise statements of fixed_rows are DataFormatError(message, <location>)" % len(raises), True)
 
 
-RULES = [rule_fixed_rows, rule_structure]
+def rule_raw_rows_dispatch(ctx):
+    """O13.7: the declared line delimiter (including 'none') reaches fixed_rows unchanged."""
+    from .c17 import raw_rows_dispatch_table
+
+    ctx.res.minimum("O13.7", 1)
+    raw_rows_dispatch_table(ctx, "O13.7")
+
+
+RULES = [rule_fixed_rows, rule_structure, rule_raw_rows_dispatch]
